@@ -311,3 +311,49 @@ def uw4(P, C):
             det2 = "statement %s; loop roles %s; bounds %s; multiplies by the matrix filled above: %s" % (
                 "matches" if txt == want else txt[:260], "ok" if roles else "WRONG", "ok" if bok else bounds, same_trafo)
     C.ob("UW-4", "convolve", "applied-to-every-slice", ok2, f.loc(app[0]) if app else f.where(), det2)
+
+
+def vg4(P, C):
+    """VG-4: convolve refuses an out-of-range dimension and an empty kernel before touching anything indexed by them."""
+    from . import vg
+    C.rule("VG-4", "convolve rejects dim >= ndim and a null or empty kernel by throwing guards that dominate every use of dim as a subscript and "
+           "every read of the kernel; nothing of the table is modified before them", floor=2)
+    f = [g for g in P.fns("convolve") if g.cls == ts.CLS and g.unit == "driver"][0]
+    gs = vg.guards_of(f)
+    want_dim = (core.Poly.const(-1) - core.Poly.atom("$0") + core.Poly.atom("ndim"), "<0")
+    gd = [g for g in gs if g["conn"] == "leaf" and g["leaves"] and g["leaves"][0] == want_dim]
+    gk = [g for g in gs if g["conn"] in ("leaf", "||") and
+          any(isinstance(l, tuple) and len(l) == 2 and l[1] == "==0" and l[0] in (core.Poly.atom("$2"), core.eq_norm(core.Poly.atom("$2"))) for l in g["leaves"])]
+    pos = f.node_positions()
+    dom = f.dominators()
+
+    def at(i):
+        while i >= 0 and i not in pos:
+            i = f.parent[i]
+        return pos.get(i)
+
+    def dominated(guard, nodes):
+        pg = at(f.strip(f.nodes[guard["node"]]["cond"]))
+        bad = []
+        for x in nodes:
+            px = at(x)
+            if not px or not pg:
+                continue
+            if not ((pg[0] == px[0] and pg[1] < px[1]) or (pg[0] != px[0] and pg[0] in dom.get(px[0], ()))):
+                bad.append(x)
+        return bad
+    dim_id = f.params[0]["id"]
+    kern_id, n_id = f.params[1]["id"], f.params[2]["id"]
+    subs = [i for i in f.walk() if f.k(i) == "ArraySubscriptExpr" and any(f.k(y) == "DeclRefExpr" and f.nodes[y]["decl"]["id"] == dim_id for y in f.walk(f.nodes[i]["ch"][1]))]
+    kuses = [i for i in f.walk() if f.k(i) == "DeclRefExpr" and f.nodes[i]["decl"]["id"] in (kern_id, n_id) and
+             not any(a in [g["node"] for g in gk] for a in f.ancestors(i))]
+    stores = [i for i in f.walk() if ts.member_writes(f, i)]
+    okd = len(gd) == 1 and not dominated(gd[0], subs) and not dominated(gd[0], stores)
+    C.ob("VG-4", "convolve", "dimension-in-range", okd, f.loc(gd[0]["node"]) if gd else f.where(),
+         ("`dim >= ndim` throws before any of the %d subscripts by dim and before any member store" % len(subs)) if okd else
+         ("no throwing guard equivalent to dim >= ndim" if len(gd) != 1 else "a subscript by dim or a member store is not dominated by the guard: %s" %
+          [f.loc(x) for x in (dominated(gd[0], subs) + dominated(gd[0], stores))[:3]]))
+    okk = len(gk) == 1 and not dominated(gk[0], kuses) and not dominated(gk[0], stores)
+    C.ob("VG-4", "convolve", "kernel-not-empty", okk, f.loc(gk[0]["node"]) if gk else f.where(),
+         ("an empty kernel throws before any of the %d uses of the kernel arguments" % len(kuses)) if okk else
+         ("no throwing guard with n_conv_knots == 0" if len(gk) != 1 else "a use of the kernel is not dominated by the guard: %s" % [f.loc(x) for x in dominated(gk[0], kuses)[:3]]))
